@@ -417,4 +417,87 @@ theorem equal_steps_accepted (a h : Rat) (n : Nat) : gridRegular (uniformGrid a 
 
 example : uniformGrid 0 (1/4) 4 = [0, 1/4, 1/2, 3/4] := by norm_num [uniformGrid]
 
+/-! ### draw skeletons of the path simulators, Zhang–Chen structure -/
+
+/-- running a composed program on one generator: first part, then the continuation on the
+advanced generator -/
+theorem runOwn_bind {O' : Type} (next : G → D × G) (p : Prog D O) (f : O → Prog D O') :
+    ∀ g, (p.bind f).runOwn next g = ((f (p.runOwn next g).1).runOwn next (p.runOwn next g).2) := by
+  induction p with
+  | ret o => intro g; rfl
+  | draw s k ih => intro g; simp only [Prog.bind, Prog.runOwn]; exact ih _ _
+
+/-- `n` draws are the next `n` values of the stream, in order, each position used once -/
+theorem drawN_runOwn (next : G → D × G) (s : Src) : ∀ (k : Nat) (g : G),
+    (drawN s k).runOwn next g = (streamTake next k g, streamDrop next k g)
+  | 0, g => rfl
+  | k + 1, g => by
+    simp only [drawN, Prog.runOwn, Prog.map, runOwn_bind, drawN_runOwn next s k, streamTake, streamDrop]
+
+/-- the `i`-th of them is the value at stream position `i`: distinct steps use distinct draws -/
+theorem streamTake_get (next : G → D × G) : ∀ (k i : Nat) (g : G), i < k →
+    (streamTake next k g)[i]? = some (next (streamDrop next i g)).1
+  | 0, i, g, h => by omega
+  | k + 1, 0, g, _ => by simp [streamTake, streamDrop]
+  | k + 1, i + 1, g, h => by
+    simp only [streamTake, List.getElem?_cons_succ, streamDrop]
+    exact streamTake_get next k i _ (by omega)
+
+/-- "Increment structure" of a standard Brownian curve as a statement about the SKELETON: the
+curve on `m` points consumes exactly the next `m - 1` values of the simulator's stream, and the
+`i`-th increment is `sqrt(delta)` times the value at stream position `i` — one draw per step, no
+draw shared between two steps. -/
+theorem brownian_one_draw_per_step (next : G → D × G) (val : D → Rat) (init sd : Rat) (m : Nat) (g : G) :
+    ((drawN (D := D) .own (m - 1)).runOwn next g).1.length = m - 1 ∧
+    ∀ i a, i < m - 1 →
+      (standardPath init sd (((drawN (D := D) .own (m - 1)).runOwn next g).1.map val))[i]? = some a →
+      (standardPath init sd (((drawN (D := D) .own (m - 1)).runOwn next g).1.map val))[i + 1]? =
+        some (a + sd * val (next (streamDrop next i g)).1) := by
+  rw [drawN_runOwn]
+  have hlen : ∀ k g', (streamTake next k g').length = k := by
+    intro k; induction k with
+    | zero => intro g'; rfl
+    | succ k ih => intro g'; simp [streamTake, ih]
+  refine ⟨hlen _ _, ?_⟩
+  intro i a hi ha
+  have hz : ((streamTake next (m - 1) g).map val)[i]? = some (val (next (streamDrop next i g)).1) := by
+    rw [List.getElem?_map, streamTake_get next (m - 1) i g hi]; rfl
+  exact (brownian_increments sd init _).2 i a _ ha hz
+
+/-- numbers of generator calls per `new`: one per grid step and curve (standard), one per curve
+(geometric), two per curve (fractional: real and imaginary part of the spectral noise), two per
+curve (Zhang–Chen: the three coefficients, then the noise) -/
+theorem path_draw_counts (n k m : Nat) :
+    newDraws .brownianStandard n k m = n * (m - 1) ∧ newDraws .brownianGeometric n k m = n ∧
+    newDraws .brownianFractional n k m = 2 * n ∧ newDraws .datasets n k m = 2 * n := ⟨rfl, rfl, rfl, rfl⟩
+
+/-- a geometric path over the reals: `init · cumprod(exp(x))` -/
+noncomputable def geomPathExp (init : ℝ) : List ℝ → List ℝ
+  | [] => []
+  | x :: xs => (init * Real.exp x) :: geomPathExp (init * Real.exp x) xs
+
+/-- Clause "geometric paths stay positive", over ℝ with the genuine exponential: for a positive
+start and ANY real increments every value of the path is positive (no hypothesis on the factors). -/
+theorem geometric_positive_real : ∀ (init : ℝ) (xs : List ℝ), 0 < init → ∀ v ∈ geomPathExp init xs, 0 < v
+  | _, [], _, v, hv => by simp [geomPathExp] at hv
+  | init, x :: xs, hi, v, hv => by
+    have h1 : 0 < init * Real.exp x := mul_pos hi (Real.exp_pos x)
+    simp only [geomPathExp, List.mem_cons] at hv
+    rcases hv with rfl | hv
+    · exact h1
+    · exact geometric_positive_real (init * Real.exp x) xs h1 v hv
+
+/-- Zhang–Chen structure: sample `j` of a curve is `mu(t_j) + vi(t_j) + eps_j` with
+`mu = 1.2 + 2.3 cos + 4.2 sin` and `vi = c0 + c1 cos + c2 sin` -/
+theorem zhang_chen_structure (cosv sinv eps : List Rat) (c0 c1 c2 : Rat) (j : Nat) (c s e : Rat)
+    (hc : cosv[j]? = some c) (hs : sinv[j]? = some s) (he : eps[j]? = some e) :
+    (zhangChenRow cosv sinv c0 c1 c2 eps)[j]? =
+      some ((6 / 5 + 23 / 10 * c + 21 / 5 * s) + (c0 + c1 * c + c2 * s) + e) := by
+  unfold zhangChenRow
+  have hz : (cosv.zip sinv)[j]? = some (c, s) := List.getElem?_zip_eq_some.mpr ⟨hc, hs⟩
+  simp [List.getElem?_zipWith, hz, he]
+
+example : (zhangChenRow [1, 0] [0, 1] 1 2 3 [0, 1/2])[1]? = some ((6 / 5 + 23 / 10 * 0 + 21 / 5 * 1) + (1 + 2 * 0 + 3 * 1) + 1 / 2) :=
+  zhang_chen_structure _ _ _ 1 2 3 1 0 1 (1/2) rfl rfl rfl
+
 end C19
